@@ -27,8 +27,7 @@ for m in muts:
         open(path, "w").write(src.replace(m["old"], m["new"]))
         if a.with_tests:
             r = subprocess.run(["go", "test", "-vet=off", "-count=1", "./..."], cwd=dst, env=env, capture_output=True, text=True)
-            if r.returncode != 0:
-                print(f"MUTANT-INVALID {m['id']}: does not pass the repository's tests\n{r.stdout[-800:]}{r.stderr[-400:]}"); bad += 1; continue
+            print(f"  tests on {m['id']}: {'pass (realistic mutant)' if r.returncode == 0 else 'FAIL (the suite already catches it; kept as an engine canary)'}")
         out = os.path.join(tmp, "out")
         r = subprocess.run([os.path.join(V, "bin", "govc"), "check", "-repo", dst, "-specs", os.path.join(V, "specs"), "-prop", m["property"],
                             "-out", out, "-known", os.path.join(V, "known_findings.json")], env=env, capture_output=True, text=True)
